@@ -70,6 +70,7 @@ func feedMenu() [][]gocbcore.SimPersist {
 		{{Err: tmp}, st(uA, 2), {Err: busy}, st(uA, 3)}, // transient observe errors
 		{st(uA, 0), st(uA, 2)},                          // nothing persisted at first, never reaches 3
 		{st(uB, 3), st(uB, 3), st(uA, 3)},               // only the vbUUID changes (same persisted seqno): agreement is reached without any seqno moving
+		{st(uA, 3), st(uA, 1), st(uA, 1), st(uA, 2)},    // the persisted seqno of a copy goes BACK on the same branch (a rebuilt replica) and recovers slowly (round 12)
 	}
 }
 
